@@ -60,6 +60,7 @@ def _span(mask):
 
 def h_field(ctx, maxw, off):
     """laws (1)-(4) for one symbolic contiguous mask at byte offset `off`"""
+    L = max(22, maxw // 8 + 5)   # buffer length: room for the widest mask at any offset used
     w, lo, ones, mask = _mask(ctx, "", maxw)
     v = ctx.int("v", maxw)
     ctx.assume(v <= ones)
@@ -214,10 +215,10 @@ def h_tables(ctx):
 def obligations(tier):
     from symx.harness import Ob
     obs = []
-    sizes = range(0, 18) if tier == "thorough" else [0, 1, 2, 3, 4, 8, 9, 17]
+    sizes = range(0, 34) if tier == "thorough" else [0, 1, 2, 3, 4, 8, 9, 17]
     for s in sizes:
         obs.append(Ob("int_ba/size=%d" % s, MOD, "h_int_ba", {"size": s}))
-    maxw = 136 if tier == "thorough" else 72
+    maxw = 264 if tier == "thorough" else 72
     for off in (0, 1, -1):
         obs.append(Ob("field/maxw=%d/off=%d" % (maxw, off), MOD, "h_field", {"maxw": maxw, "off": off}, split=True))
     mw2 = 40 if tier == "thorough" else 20
@@ -239,7 +240,7 @@ INFO = {
                    "a z3 query 'path condition and not law' that must be unsat on every path.",
     "functions": ["pyscsi.utils.converter.scsi_int_to_ba", "pyscsi.utils.converter.scsi_ba_to_int",
                   "pyscsi.utils.converter.encode_dict", "pyscsi.utils.converter.decode_bits"],
-    "bounds": {"array sizes": "0..17 bytes (quick: 0,1,2,3,4,8,9,17)", "mask width": "1..136 bits thorough / 1..72 quick, "
+    "bounds": {"array sizes": "0..33 bytes (quick: 0,1,2,3,4,8,9,17)", "mask width": "1..264 bits thorough / 1..72 quick, "
                "alignment 0..7, i.e. spans 1..18 / 1..10 bytes", "offsets": "0, 1, end-of-buffer (22-byte buffer)",
                "two-field law": "masks up to 40 (quick 20) bits each, 12-byte buffer, 3 offset pairs",
                "blobs": "b/w/dw, lengths 0..8 (quick 0,1,3,8)"},
